@@ -154,7 +154,7 @@ class C18(Scenario):
             for _ in range(rng.randrange(0, 5)):
                 evs.append([rng.choice([0, 0, 1, 102, 103, 300, 1024, 3000]), rng.random() < 0.6])  # [gap ticks, drain afterwards?]
             case.update(behaviours=beh, debounce=iv, kill_after=rng.choice([0, 1, 10]), restart_on_exit=rng.random() < 0.6, events=evs,
-                        final_gap=rng.choice([0, 1, 102, 500]), second_stop=rng.random() < 0.2)
+                        final_gap=rng.choice([0, 1, 102, 500] + ([iv * TICKS - 1, iv * TICKS, iv * TICKS + 1] * 2 if iv else [])), second_stop=rng.random() < 0.2)
         else:
             beh = [{"exit_after": rng.choice([0, 50, 150, 400, 1500]), "ignore_sig": False, "die_delay": 0} for _ in range(rng.randrange(1, 4))]
             case.update(behaviours=beh, wait=rng.random() < 0.5, drop=rng.random() < 0.6, events=[rng.choice([0, 0, 10, 102, 150, 500]) for _ in range(rng.randrange(1, 6))])
